@@ -1266,7 +1266,15 @@ template <class T> struct Tag { using type = T; };
   X(std::list<int64_t>) X(std::list<Few>) X(std::unordered_set<std::string>)                                   \
   X(VF_MAP_STRING_I32) X(std::unique_ptr<Few>) X(std::shared_ptr<std::string>)                                 \
   X(std::unique_ptr<std::vector<int32_t>>) X(std::shared_ptr<std::vector<double>>) X(VF_ARR_I32_3)             \
-  X(VF_ARR_FEW_2) X(vfc11::Msg)
+  X(VF_ARR_FEW_2) X(vfc11::Msg)                                                                                \
+  X(VF_MAP_STRING_CONTAINERS) X(VF_MAP_I32_SCALARS) X(VF_VEC_MAP_STRING_CONTAINERS) X(VF_PTR_MAP_STRING_CONTAINERS)
+// maps at the root (or reached only through forwarding wrappers) whose key has no cached size and whose mapped value
+// has one: nothing above the map runs the sizing pass for it (new roots are appended: first bytes below the old count
+// keep their meaning)
+using VF_MAP_STRING_CONTAINERS = std::unordered_map<std::string, Containers>;
+using VF_MAP_I32_SCALARS = std::unordered_map<int32_t, Scalars>;
+using VF_VEC_MAP_STRING_CONTAINERS = std::vector<VF_MAP_STRING_CONTAINERS>;
+using VF_PTR_MAP_STRING_CONTAINERS = std::unique_ptr<VF_MAP_STRING_CONTAINERS>;
 using VF_MAP_STRING_I32 = std::unordered_map<std::string, int32_t>;
 using VF_ARR_I32_3 = int32_t[3];
 using VF_ARR_FEW_2 = Few[2];
